@@ -807,8 +807,9 @@ func ruleCommandNameLowercased(w *core.World, r *core.Report) {
 		return
 	}
 	var cmdVal ssa.Value
-	for _, in := range core.Instrs(f) {
-		if ret, ok := in.(*ssa.Return); ok && isSuccessReturn(in) {
+	// (a return that hands on the results of a helper with one call site is that helper's returns)
+	for _, ret := range core.ReturnsX(f) {
+		if isSuccessReturn(ret) && len(ret.Results) == 3 {
 			cmdVal = core.RetVal(ret, 0)
 		}
 	}
